@@ -47,3 +47,4 @@ let ghost before = res@;''',
 
 
 UNITS = {'c17_escape_string': (['C17'], escape_unit)}
+SEARCH = {'c17_escape_string': ['c17_escape']}
